@@ -140,7 +140,8 @@ def _run_case(spec):
     # st_Ricci_down3 first (matter route: Tdown4, rho0, ... get cached on the
     # way) or the Riemann tensor first (nothing of the matter sector cached yet)
     order = list(ALGEBRAIC + DIFFERENTIAL)
-    if (spec['member'].get('seed', 0) + spec['order'] // 2 + int(bool(spec.get('no_T')))) % 2:
+    if (spec['member'].get('seed', 0) + spec['order'] // 2 + int(bool(spec.get('no_T')))) % 2 \
+            or spec['member'].get('shift_x0'):
         order = ['st_Riemann_down4', 'Kretschmann'] + [k for k in order
                                                        if k not in ('st_Riemann_down4', 'Kretschmann')]
     for g in grids:
